@@ -1,4 +1,5 @@
 """C10 - rest: status codes and bodies map to results and errors as documented."""
+import itertools
 import json
 
 from vlib import core, pkgrun, restgen
@@ -15,9 +16,13 @@ MANIFEST = dict(
          "nil result on every error path, transport error passed on, empty body gives the zero value. The model is tied to restclient.tmpl by "
          "generating real clients with the rebuilt `shoot rest`, compiling them and calling every method against a scripted RoundTripper for EVERY "
          "status 100..599 plus -1, 0, 99, 600, 999 x {empty, valid, malformed, wrong-typed} body x {pointer, slice, map, none} result x "
-         "{refused, cancelled, timeout} fault, exhaustively in both tiers, plus seeded random interfaces.",
+         "{refused, cancelled, timeout} fault, exhaustively in both tiers, plus seeded random interfaces; 3xx answers with a Location header under the "
+         "three CheckRedirect policies (follow / ErrUseLastResponse / refuse with an error); and clients whose chain contains LoggingMiddleware and "
+         "RetryMiddleware(n) in front of a scripted base transport (every script of length n+1 over 8 answers for n = 0..2; composed with the C20 "
+         "model: C10_retry_first_acceptable, C10_retry_chain) — the error path must still quote the body.",
     note="Lean kernel + standard axioms; encoding/json behaviour on the four body classes and http.Client.Do are assumptions checked by the "
-         "correspondence run; status >= 600 is outside the property (region Out, advisory).",
+         "correspondence run; status >= 600 is outside the property (region Out, advisory). Known finding F_respWithError: a response that "
+         "client.Do returns together with an error (refused redirect) is dropped.",
     technique="Lean 4 proof (case analysis over the status bands, all Int) + exhaustive model/implementation correspondence on generated clients",
     design="5/C10")
 
@@ -45,14 +50,27 @@ def status_spec(statuses):
     return ",".join(str(s) for s in statuses)
 
 
-def make_pkg(pid, iface, statuses, faults=FAULTS):
-    """one package = one interface; sub-cases = method x status x body and method x fault"""
+REDIR_FIRSTS = [301, 302, 303, 307, 308]
+REDIR_SECONDS = [200, 204, 404, 503, 302]
+RETRY_ALPHA = ["r503m", "r500e", "e", "r200v", "r200e", "r404v", "r302e", "r502w"]
+CLASS_OF = {"e": "empty", "v": "valid", "m": "malformed", "w": "wrongtype"}
+
+
+def make_pkg(pid, iface, statuses, faults=FAULTS, redirect=None, retry=None):
+    """one package = one interface; sub-cases = method x status x body, method x fault, redirect legs, retry-chain legs"""
     spec = statuses if isinstance(statuses, str) else status_spec(statuses)
     files = restgen.render_package("cs", [iface], modpath="verifcases/c_" + pid)
     args = ["rest", "-type=" + iface["name"]]
     return {"id": pid, "iface": iface, "files": files, "runs": [{"args": args}],
-            "oracle": {".": restgen.c10_oracle("cs", iface, spec, BODIES, faults)},
-            "statuses": expand(spec), "faults": list(faults), "cmd": "shoot " + " ".join(args)}
+            "oracle": {".": restgen.c10_oracle("cs", iface, spec, BODIES, faults, redirect=redirect, retry=retry)},
+            "statuses": expand(spec), "faults": list(faults), "redirect": redirect, "retry": retry or {}, "cmd": "shoot " + " ".join(args)}
+
+
+def script_sexp(spec):
+    out = []
+    for tok in spec.split(","):
+        out.append("e" if tok == "e" else "(r %s %s)" % (tok[1:-1], CLASS_OF[tok[-1]]))
+    return " ".join(out)
 
 
 def expand(spec):
@@ -92,11 +110,38 @@ def subcases(pkg):
                         "sexp": "(case %s rest-call (shape %s) (fault %s))" % (cid, shape, lf),
                         "key": "%s|%s|fault|%s" % (shape, m["result"]["type"], f),
                         "cmd": json.dumps(dict(info, fault=f))})
+        if pkg.get("redirect"):
+            firsts, seconds, rbodies = pkg["redirect"]
+            for first in firsts:
+                for pol in ("follow", "last", "refuse"):
+                    for second in (seconds if pol == "follow" else [0]):
+                        for b in (rbodies if pol == "follow" else ["empty"]):
+                            cid = "%s.%s.rd.%s.%d.%d.%s" % (pkg["id"], m["name"], pol, first, second, b)
+                            if pol == "follow":
+                                what, nreq = "(status %d) (body %s)" % (second, b), "2"
+                            elif pol == "last":
+                                what, nreq = "(status %d) (body malformed)" % first, "1"
+                            else:
+                                what, nreq = "(resperr %d)" % first, "1"
+                            out.append({"id": cid, "pkg": pkg["id"], "okey": "%s/redir/%s-%d-%d-%s/" % (m["name"], pol, first, second, b), "shape": shape,
+                                        "status": second if pol == "follow" else first, "body": b, "fault": None, "redir": pol, "nreq": nreq,
+                                        "sexp": "(case %s rest-call (shape %s) %s)" % (cid, shape, what),
+                                        "key": "%s|%s|redir|%s|%d|%d|%s" % (shape, m["result"]["type"], pol, first, second, b),
+                                        "cmd": json.dumps(dict(info, redirect=[pol, first, second, b]))})
+        for rn, scripts in sorted(pkg.get("retry", {}).items()):
+            for sp in scripts:
+                cid = "%s.%s.rt.%d.%s" % (pkg["id"], m["name"], rn, sp.replace(",", "-"))
+                out.append({"id": cid, "pkg": pkg["id"], "okey": "%s/retry/%d:%s/" % (m["name"], rn, sp), "shape": shape, "status": None, "body": None,
+                            "fault": None, "retry": (rn, sp),
+                            "sexp": "(case %s rest-call (shape %s) (retry %d) (script %s))" % (cid, shape, rn, script_sexp(sp)),
+                            "key": "%s|%s|retry|%d|%s" % (shape, m["result"]["type"], rn, sp),
+                            "cmd": json.dumps(dict(info, retry=[rn, sp]))})
     return out
 
 
 def gen_pkgs(ctx):
-    pkgs = [make_pkg("x0", exhaustive_iface(), ALL_STATUSES)]
+    retry_all = {n: [",".join(t) for t in itertools.product(RETRY_ALPHA, repeat=n + 1)] for n in (0, 1, 2)}
+    pkgs = [make_pkg("x0", exhaustive_iface(), ALL_STATUSES, redirect=(REDIR_FIRSTS, REDIR_SECONDS, BODIES), retry=retry_all)]
     g = restgen.RestGen(ctx.rng)
     # every verb x every shape at least once, then random interfaces
     k = 0
@@ -113,7 +158,9 @@ def gen_pkgs(ctx):
     for _ in range(ctx.n(24, 200)):
         k += 1
         sts = sorted(set(ctx.rng.sample(BOUNDARY, 10) + [ctx.rng.randint(100, 599) for _ in range(ctx.n(20, 12))] + [ctx.rng.randint(-5, 1200)]))
-        pkgs.append(make_pkg("r%d" % k, g.c10_iface(), sts))
+        rt = {n: [",".join(ctx.rng.choice(RETRY_ALPHA) for _ in range(n + 1)) for _ in range(4)] for n in (1, 3)}
+        pkgs.append(make_pkg("r%d" % k, g.c10_iface(), sts, redirect=([ctx.rng.choice(REDIR_FIRSTS)], [ctx.rng.choice(REDIR_SECONDS)], ["valid", "empty"]),
+                             retry=rt))
     return pkgs
 
 
@@ -149,7 +196,9 @@ def run_pkgs(ctx, pkgs):
             # the scripted fault error must come back as the very object the transport produced (inside the *url.Error of client.Do)
             if c["fault"] and im.get("err") == "transport:same":
                 im["err"] = "transport:" + c["fault"].split("-")[0]
-            im.pop("nreq", None)
+            nreq = im.pop("nreq", None)
+            if c.get("redir"):
+                im["nreq"] = nreq
             if c["fault"] == "refused-real" and "err" not in im and gen == "ok":
                 skipped.append(c["id"])      # no loopback in this sandbox: leg skipped (stated in the evidence)
                 continue
@@ -161,6 +210,10 @@ def run_pkgs(ctx, pkgs):
         if m:
             m["model"]["gen"] = "ok"
             m["spec"]["gen"] = "ok"
+            if c.get("redir"):
+                # the default policy follows the redirect: two round trips; the other two policies stop after one
+                m["model"]["nreq"] = c["nreq"]
+                m["spec"]["nreq"] = c["nreq"]
     return cases, impl, model
 
 
@@ -176,6 +229,10 @@ def run(ctx, obl):
         res.hist("shape", c["shape"])
         if c["fault"]:
             res.hist("fault", c["fault"])
+        elif c.get("retry"):
+            res.hist("retry-chain", "n=%d" % c["retry"][0])
+        elif c.get("redir"):
+            res.hist("redirect", c["redir"])
         else:
             res.hist("body", c["body"])
             s = c["status"]
